@@ -537,6 +537,9 @@ class Impl:
             return self._h(m, a.let({vname(k): vname(v) for k, v in args[0].items()}, F(args[1])))
         if name == 'quantify':
             # (a one-shot iterator: `qvars` is documented as an iterable)
+            if len(args[1]) % 2 == 1:
+                fn = a.forall if args[2] else a.exist
+                return self._h(m, fn((vname(k) for k in args[1]), F(args[0])))
             return self._h(m, a.quantify(F(args[0]), (vname(k) for k in args[1]), args[2]))
         if name == 'cube':
             return self._h(m, a.cube({vname(k): v for k, v in args[0].items()}))
@@ -545,6 +548,22 @@ class Impl:
         if name == 'support':
             return {vid(x) for x in a.support(F(args[0]))}
         if name == 'count':
+            # the read-only enumeration wrappers on the way: an iterator that is never
+            # advanced, one abandoned after its first item, one consumed; none of them
+            # may leave a trace in the manager (the state is compared after this call)
+            f = F(args[0])
+            it = a.pick_iter(f)
+            del it
+            it = a.pick_iter(f)
+            first = next(it, None)
+            del it
+            models = list(a.pick_iter(f))
+            one = a.pick(f)
+            if (first is None) != (not models) or (one is None) != (not models):
+                raise AssertionError('pick / pick_iter disagree about satisfiability')
+            if models and a.count(f) != len(models):
+                raise AssertionError('count differs from the number of assignments of pick_iter')
+            del f
             return a.count(F(args[0]), args[1])
         if name in ('image', 'preimage'):
             t, s, rn, q, fa = args
@@ -769,7 +788,11 @@ class Impl:
     def op_quantify(self, b, u, kind, q, fa):
         # a one-shot iterator: `qvars` is documented as an iterable, and the
         # call may be retried after a dynamic reordering
-        return b.quantify(u, iter(list(_keys(kind, q))), forall=fa)
+        ks = list(_keys(kind, q))
+        if len(ks) % 2 == 1:
+            # the convenience entry points
+            return b.forall(iter(ks), u) if fa else b.exist(iter(ks), u)
+        return b.quantify(u, iter(ks), forall=fa)
 
     def op_compose(self, b, u, sub):
         return b.compose(u, {vname(k): g for k, g in sub.items()})
